@@ -16,6 +16,7 @@ From Coq Require Import List NArith Permutation.
 From Astisub Require Import Kit.Base Kit.GoMap Model.Srt Model.Vtt Proofs.VttIOProofs.
 From Astisub Require Import Model.Ssa Proofs.SsaOrder.
 From Astisub Require Import Model.Stl Proofs.StlClock.
+From Astisub Require Import Model.Ttml Proofs.TtmlIO.
 Import ListNotations.
 
 Theorem C19_sorted_range_independent : forall (V A : Type) (m : list (N * V)) (order order' : list N)
@@ -53,6 +54,14 @@ Print Assumptions C19_stl_deterministic.
 Print Assumptions C19_stl_clock_only_when_dates_absent.
 Print Assumptions C19_stl_clock_only_in_dates.
 
+(* the TTML writer model (bytes) has no clock and no iteration-order input: its bytes are a function of the
+   document value and the indent option; the style and region tables enter as association lists and the bytes do
+   not depend on the order in which they are listed (keys distinct, as in a Go map) *)
+Theorem C19_ttml_deterministic : forall ind meta items st st' rg rg',
+  Permutation st st' -> Permutation rg rg' -> NoDup (map fst st) -> NoDup (map fst rg) ->
+  write_ttml_bytes ind (mkDoc meta st rg items) = write_ttml_bytes ind (mkDoc meta st' rg' items).
+Proof. exact write_ttml_bytes_perm. Qed.
+
 Example C19_example : nsort [3; 1; 2]%N = nsort [2; 3; 1]%N. Proof. reflexivity. Qed.
 
 Print Assumptions C19_sorted_range_independent.
@@ -60,3 +69,4 @@ Print Assumptions C19_sort_forgets_order.
 Print Assumptions C19_srt_deterministic.
 Print Assumptions C19_vtt_deterministic.
 Print Assumptions C19_ssa_deterministic.
+Print Assumptions C19_ttml_deterministic.
